@@ -290,7 +290,7 @@ def last_write_is_reset(G, call, bid, resets):
             l = strip(e.ch[0])
             if l.k == 'ArraySubscriptExpr' and (decl_of(l.ch[0]) or {}).get('id') == bid:
                 return 'write'
-        if e.k == 'CallExpr' and e.id != call.id:
+        if e.k == 'CallExpr':     # including the data source call itself when it is reached again round the loop
             for i, a in enumerate(e.ch[1:]):
                 d = decl_of(a) if a is not None else None
                 if d is not None and d['id'] == bid:
